@@ -13,7 +13,130 @@ import (
 )
 
 var gens = map[string]GenFn{
-	"RelaySrc": genRelaySrc,
+	"RelaySrc":     genRelaySrc,
+	"RelayAcctSrc": genRelayAcctSrc,
+}
+
+// genRelayAcctSrc reads WHERE the L4 connection accounting of streamproxy.go sits (C10):
+//   - initializeUpstreamConnection: is `clusterConnectionResource.Increase()` (with SetUpstreamHost) inside the connect
+//     loop in front of `upstreamConnection.Connect()` or behind the loop; does the Connect error branch call Decrease
+//   - onUpstreamEvent: does the ConnectTimeout case call finalizeUpstreamConnectionStats; do all five close events
+//   - finalizeUpstreamConnectionStats: a single Decrease guarded by "an upstream host is set"
+func genRelayAcctSrc(repo string) (string, error) {
+	fset, f, err := ParseGoFile(repo, "pkg/filter/network/streamproxy/streamproxy.go")
+	if err != nil {
+		return "", err
+	}
+	init := FindFunc(f, "proxy", "initializeUpstreamConnection")
+	if init == nil {
+		return "", fmt.Errorf("initializeUpstreamConnection not found")
+	}
+	var loop *ast.ForStmt
+	loopIdx := -1
+	for i, st := range init.Body.List {
+		if fs, ok := st.(*ast.ForStmt); ok && loop == nil {
+			loop, loopIdx = fs, i
+		}
+	}
+	if loop == nil {
+		return "", fmt.Errorf("connect loop not found")
+	}
+	isCall := func(n ast.Node, want string) bool {
+		es, ok := n.(*ast.ExprStmt)
+		return ok && exprStr(fset, es.X) == want
+	}
+	// inside the loop: position of Connect and of Increase / SetUpstreamHost
+	connectIdx, incIn, hostIn := -1, -1, -1
+	errDec := false
+	for i, st := range loop.Body.List {
+		if is, ok := st.(*ast.IfStmt); ok && is.Init != nil && strings.Contains(exprStr(fset, is.Init), "upstreamConnection.Connect()") {
+			connectIdx = i
+			ast.Inspect(is.Body, func(n ast.Node) bool {
+				if c, ok := n.(*ast.CallExpr); ok && strings.HasSuffix(exprStr(fset, c.Fun), ".Decrease") {
+					errDec = true
+				}
+				return true
+			})
+		}
+		if isCall(st, "clusterConnectionResource.Increase()") {
+			incIn = i
+		}
+		if isCall(st, "p.readCallbacks.SetUpstreamHost(connectionData.Host)") {
+			hostIn = i
+		}
+	}
+	if connectIdx < 0 {
+		return "", fmt.Errorf("Connect() call not found in the connect loop")
+	}
+	incAfter, hostAfter := -1, -1
+	for i, st := range init.Body.List {
+		if i <= loopIdx {
+			continue
+		}
+		if isCall(st, "clusterConnectionResource.Increase()") {
+			incAfter = i
+		}
+		if isCall(st, "p.readCallbacks.SetUpstreamHost(connectionData.Host)") {
+			hostAfter = i
+		}
+	}
+	nInc := 0
+	ast.Inspect(f, func(n ast.Node) bool {
+		if c, ok := n.(*ast.CallExpr); ok && strings.HasSuffix(exprStr(fset, c.Fun), ".Increase") {
+			nInc++
+		}
+		return true
+	})
+	var before bool
+	switch {
+	case incIn >= 0 && incIn < connectIdx && hostIn >= 0 && hostIn < connectIdx && incAfter < 0 && hostAfter < 0:
+		before = true
+	case incAfter >= 0 && hostAfter >= 0 && incIn < 0 && hostIn < 0:
+		before = false
+	default:
+		return "", fmt.Errorf("cannot place Increase/SetUpstreamHost relative to Connect (in-loop %d/%d, connect %d, after %d/%d)", incIn, hostIn, connectIdx, incAfter, hostAfter)
+	}
+	// onUpstreamEvent
+	ev := FindFunc(f, "proxy", "onUpstreamEvent")
+	if ev == nil {
+		return "", fmt.Errorf("onUpstreamEvent not found")
+	}
+	finalizes := map[string]bool{}
+	ast.Inspect(ev.Body, func(n ast.Node) bool {
+		cc, ok := n.(*ast.CaseClause)
+		if !ok {
+			return true
+		}
+		fin := false
+		for _, bs := range cc.Body {
+			if isCall(bs, "p.finalizeUpstreamConnectionStats()") {
+				fin = true
+			}
+		}
+		for _, e := range cc.List {
+			finalizes[strings.TrimPrefix(exprStr(fset, e), "api.")] = fin
+		}
+		return true
+	})
+	allClose := true
+	for _, c := range []string{"RemoteClose", "LocalClose", "OnReadErrClose", "OnWriteTimeout", "OnWriteErrClose"} {
+		allClose = allClose && finalizes[c]
+	}
+	// finalizeUpstreamConnectionStats
+	fin := FindFunc(f, "proxy", "finalizeUpstreamConnectionStats")
+	if fin == nil {
+		return "", fmt.Errorf("finalizeUpstreamConnectionStats not found")
+	}
+	finBody := exprStr(fset, fin.Body)
+	finOK := finBody == "{ hostInfo := p.readCallbacks.UpstreamHost() if host, ok := hostInfo.(types.Host); ok { host.ClusterInfo().ResourceManager().Connections().Decrease() } }"
+	var out strings.Builder
+	out.WriteString("From MV Require Import Model.RelayAcct.\n\n")
+	fmt.Fprintf(&out, "(* initializeUpstreamConnection: Increase+SetUpstreamHost before Connect = %v; Decrease in the Connect error branch = %v;\n   onUpstreamEvent: the ConnectTimeout case finalizes = %v *)\n", before, errDec, finalizes["ConnectTimeout"])
+	fmt.Fprintf(&out, "Definition src_sw : sw := mkSw %s %s %s.\n", CoqBool(before), CoqBool(errDec), CoqBool(finalizes["ConnectTimeout"]))
+	fmt.Fprintf(&out, "(* exactly one Increase call in the file (%d); all five close events finalize (%v); finalize is one Decrease guarded by the\n   upstream host being set (%v) *)\n", nInc, allClose, finOK)
+	fmt.Fprintf(&out, "Definition acct_shape_ok : bool := %s.\n", CoqBool(nInc == 1 && allClose && finOK))
+	out.WriteString("Definition RelayAcctSrc_translator_ok := true.\n")
+	return out.String(), nil
 }
 
 func exprStr(fset *token.FileSet, e ast.Node) string {
